@@ -409,16 +409,20 @@ void BSLightingShaderProperty::Sync(NiStreamReversible& stream) {
 	}
 
 	if (stream.GetVersion().Stream() > 139) {
-		stream.Sync(bslspShaderType);
+		// Adjust shader type to old value internally due to removed Height/Parallax enum value (3).
+		// The value in the file is converted through a temporary, so that writing neither changes
+		// the member nor stores the unconverted value, and so that it is the inverse of reading.
+		uint32_t fileShaderType = bslspShaderType;
+		if (stream.GetMode() == NiStreamReversible::Mode::Writing && fileShaderType > 4)
+			fileShaderType -= 1;
 
-		// Adjust shader type to old value internally due to removed Height/Parallax enum value (3)
+		stream.Sync(fileShaderType);
+
 		if (stream.GetMode() == NiStreamReversible::Mode::Reading) {
-			if (bslspShaderType > 3)
-				bslspShaderType += 1;
-		}
-		else {
-			if (bslspShaderType >= 3)
-				bslspShaderType -= 1;
+			if (fileShaderType > 3)
+				fileShaderType += 1;
+
+			bslspShaderType = fileShaderType;
 		}
 	}
 
